@@ -243,6 +243,8 @@ def run(ctx, chk, tier="quick"):
     chk.assumptions = ["scipy.stats.norm.cdf and R's pnorm are the same normal CDF",
                        "the R file shipped with the repository is the reference formulation",
                        "loop extents (R sums 200 cells, Python 201) are recorded as information, not compared"]
+    from .c14 import sy_delegation
+    sy_delegation(ctx, chk, "C16.O5", "the PEATCLSM specific yield is the order-1 spline through its tabulated knots, constant beyond the table: that is what the shared SpecificYield.__call__ / integrate evaluate; a look-up of its own (a scalar fast path) has its own behaviour beyond the table")
     from ..memo import memo_keys
     memo_keys(ctx, chk, "C16.O1", ("specific_yield", "transmissivity"), "peatclsm")
     n = api_obligations(ctx, chk, "C16.O1", ["specific_yield", "transmissivity", "spline"])
